@@ -35,15 +35,31 @@ structure Obj where
   addrs : List Nat := []        -- vpnAddrs
   lidx : Nat := 0               -- localIndexId
   ridx : Nat := 0               -- remoteIndexId
-  relays : List Nat := []       -- keys of relayState.relayForByIdx, in insertion order
   pkt : Nat := 0                -- HandshakePacket[0] (a token for the bytes)
   hsTime : Nat := 0             -- lastHandshakeTime
   initiator : Bool := false     -- ConnectionState.initiator
   ready : Bool := false         -- HandshakeHostInfo.ready
   deriving Repr, DecidableEq, Inhabited
 
+/-- `Relay` (treated immutably by the Go code: updates store a modified copy) -/
+structure Relay where
+  type : Nat := 0               -- Unknowntype / ForwardingType / TerminalType
+  state : Nat := 0              -- Requested / PeerRequested / Established / Disestablished
+  lidx : Nat := 0               -- LocalIndex
+  ridx : Nat := 0               -- RemoteIndex
+  peer : Nat := 0               -- PeerAddr
+  deriving Repr, DecidableEq, Inhabited
+
+/-- `HostInfo.relayState` -/
+structure RelayState where
+  relaysTo : List Nat := []     -- relays: vpn addrs of hosts used as relays to reach this peer
+  byAddr : FMap Relay := []     -- relayForByAddr
+  byIdx : FMap Relay := []      -- relayForByIdx
+  deriving Repr, DecidableEq, Inhabited
+
 structure State where
   objs : FMap Obj := []
+  rs : FMap RelayState := []    -- the relayState of each hostinfo (kept apart from the fields the index maps read)
   next : Nat := 1               -- next fresh object id (0 is never an object)
   hosts : FMap Nat := []        -- HostMap.Hosts
   more : FMap (List Nat) := []  -- HostMap.moreHosts
@@ -57,6 +73,13 @@ structure State where
 def State.obj (s : State) (h : Nat) : Obj := (s.objs.get h).getD {}
 
 def State.setObj (s : State) (h : Nat) (o : Obj) : State := { s with objs := s.objs.set h o }
+
+def State.rstate (s : State) (h : Nat) : RelayState := (s.rs.get h).getD {}
+
+def State.setRs (s : State) (h : Nat) (r : RelayState) : State := { s with rs := s.rs.set h r }
+
+def forwardingType : Nat := Nebula.Gen.hostmap_ForwardingType
+def disestablished : Nat := Nebula.Gen.hostmap_Disestablished
 
 def maxHostInfos : Nat := Nebula.Gen.hostmap_MaxHostInfosPerVpnIp
 
@@ -105,14 +128,41 @@ def condDelRidx (s : State) (h k : Nat) : State :=
 def condDelIdx (s : State) (h k : Nat) : State :=
   if s.indexes.get k = some h then { s with indexes := s.indexes.del k } else s
 
-/-- `unlockedDeleteHostInfo` (the relay *state* changes of `unlockedDisestablishVpnAddrRelayFor` do not touch
-any map and are not modelled). -/
+/-- `RelayState.InsertRelay` -/
+def insertRelay (r : RelayState) (ip idx : Nat) (rel : Relay) : RelayState :=
+  { r with byAddr := r.byAddr.set ip rel, byIdx := r.byIdx.set idx rel }
+
+/-- `RelayState.InsertRelayTo` -/
+def insertRelayTo (r : RelayState) (ip : Nat) : RelayState :=
+  if r.relaysTo.contains ip then r else { r with relaysTo := r.relaysTo ++ [ip] }
+
+/-- `RelayState.UpdateRelayForByIpState` -/
+def updateRelayState (r : RelayState) (vpnIp state : Nat) : RelayState :=
+  match r.byAddr.get vpnIp with
+  | some rel =>
+    let rel' := { rel with state := state }
+    { r with byAddr := r.byAddr.set rel'.peer rel', byIdx := r.byIdx.set rel'.lidx rel' }
+  | none => r
+
+/-- `for _, h := range hm.unlockedGetHostList(addr) { h.relayState.UpdateRelayForByIpState(vpnIp, Disestablished) }` -/
+def disestablishVia (vpnIp : Nat) (s : State) (addr : Nat) : State :=
+  (hostList s addr).foldl (fun s x => s.setRs x (updateRelayState (s.rstate x) vpnIp disestablished)) s
+
+/-- `unlockedDisestablishVpnAddrRelayFor` -/
+def disestablish (s : State) (h : Nat) : State :=
+  let a0 := (s.obj h).addrs.headD 0
+  let s := (s.rstate h).relaysTo.foldl (disestablishVia a0) s
+  ((s.rstate h).byIdx.map (·.2)).foldl (fun s rel => if rel.type = forwardingType then disestablishVia a0 s rel.peer else s) s
+
+/-- `unlockedDeleteHostInfo` -/
 def deleteHost (s : State) (h : Nat) : State × Bool :=
   let o := s.obj h
   let (s, final) := o.addrs.foldl (delAddrStep h) (s, true)
   let s := condDelRidx s h o.ridx
   let s := condDelIdx s h o.lidx
-  let s := o.relays.foldl (delRelayStep h) s
+  let s := if final then disestablish s h else s
+  -- `CopyRelayForIdxs`: the keys of relayForByIdx
+  let s := (s.rstate h).byIdx.keys.foldl (delRelayStep h) s
   (s, final)
 
 /-- `unlockedInnerAddHostInfo` -/
@@ -169,8 +219,9 @@ def allocLoop (h : Nat) : Nat → State → List Nat → State × AllocRes
 
 def allocateIndex (s : State) (h : Nat) (st : List Nat) : State × AllocRes := allocLoop h 32 s st
 
-/-- `AddRelay` -/
-def relayLoop (h : Nat) : Nat → State → List Nat → State × AllocRes
+/-- `AddRelay` (`rel` carries the type, state, peer address and remote index the caller passes; its local index is
+filled in here) -/
+def relayLoop (h : Nat) (rel : Relay) : Nat → State → List Nat → State × AllocRes
   | 0, s, _ => (s, .exhausted)
   | fuel + 1, s, st =>
     match genIndex st with
@@ -180,12 +231,11 @@ def relayLoop (h : Nat) : Nat → State → List Nat → State × AllocRes
         let (s1, ok) := makePrimary s h
         if !ok then (s1, .unlinked)
         else
-          let o := s1.obj h
-          let rl := if idx ∈ o.relays then o.relays else o.relays ++ [idx]
-          ({ s1.setObj h { o with relays := rl } with relays := s1.relays.set idx h }, .ok idx)
-      else relayLoop h fuel s st'
+          let r := { rel with lidx := idx }
+          ({ s1.setRs h (insertRelay (s1.rstate h) r.peer idx r) with relays := s1.relays.set idx h }, .ok idx)
+      else relayLoop h rel fuel s st'
 
-def addRelay (s : State) (h : Nat) (st : List Nat) : State × AllocRes := relayLoop h 32 s st
+def addRelay (s : State) (h : Nat) (rel : Relay) (st : List Nat) : State × AllocRes := relayLoop h rel 32 s st
 
 /-! ### handshake_manager.go, pending side -/
 
@@ -287,7 +337,8 @@ inductive Op where
   | del (h : Nat)
   | pdel (h : Nat)
   | prim (h : Nat)
-  | relay (h : Nat) (st : List Nat)
+  | relay (h : Nat) (rel : Relay) (st : List Nat)
+  | relayTo (h : Nat) (a : Nat)
   deriving Repr
 
 def applyOp (s : State) : Op → State
@@ -298,7 +349,14 @@ def applyOp (s : State) : Op → State
   | .del h => (deleteHost s h).1
   | .pdel h => pendingDelete s h
   | .prim h => (makePrimary s h).1
-  | .relay h st => (addRelay s h st).1
+  | .relay h rel st => (addRelay s h rel st).1
+  | .relayTo h a => s.setRs h (insertRelayTo (s.rstate h) a)
+
+/-- the tunnels an operation may bring into the main hostmap -/
+def freshOf (s : State) : Op → List Nat
+  | .resp .. => [s.next]
+  | .fin i .. => (s.pidx.get i).toList
+  | _ => []
 
 def run (s : State) (ops : List Op) : State := ops.foldl applyOp s
 
